@@ -332,3 +332,49 @@ Definition verdict (h0 : N) (pre : list effect) (post_tr : list step_tr) : bool 
   (no_conflict pre (flat post_tr),
    consecutive_from (resume_height h0 pre) (commits_in (flat post_tr)),
    flush_before_visible (flat post_tr) && logged_first post_tr).
+
+(* ---------- hypotheses of the theorems, as executable predicates ---------- *)
+(* the calling discipline C12's invariant needs (C12 finding 1: ProcessTimeout does not look at
+   isHeightStarted): no timeout reaches the state machine while its height is not started.  In the live
+   phase the driver guarantees it by calling ProcessStart(0) first; during replay it depends on the log. *)
+Fixpoint listen_disc (E : env) (d : dstate) (ins : list input) : bool :=
+  match ins with
+  | [] => true
+  | i :: rest =>
+      ok_input (d_sm d) i &&
+      let '(d1, _, com) := dstep E false d i in
+      listen_disc E (if com then fst (starts E SFUEL d1) else d1) rest
+  end.
+Fixpoint replay_disc (E : env) (d : dstate) (es : list entry) : bool :=
+  match es with
+  | [] => true
+  | e :: rest =>
+      if entry_height e <? s_h (d_sm d) then replay_disc E d rest
+      else ok_input (d_sm d) (input_of_entry e) &&
+           replay_disc E (fst (fst (dstep E true d (input_of_entry e)))) rest
+  end.
+Definition life_disc (E : env) (h : N) (durable : list wrec) (calls : N) (ins : list input) : bool :=
+  replay_disc E (boot h durable calls) (load durable) &&
+  listen_disc E (fst (starts E SFUEL (fst (recover E h durable calls)))) ins.
+
+(* first life on an empty log at height h0, killed after k effects; second life on what was on disk, at the
+   height after the last completed commit, the application having answered n2 calls before *)
+Definition crash_restart (E : env) (h0 : N) (ins1 : list input) (k : nat) (n2 : N) (ins2 : list input)
+  : list effect * (dstate * list step_tr) :=
+  let effs := flat (snd (lifetime E h0 [] 0 ins1)) in
+  let pre := firstn k effs in
+  (pre, lifetime E (resume_height h0 pre) (crash_at k effs []) n2 ins2).
+
+(* every vote broadcast before the crash is broadcast again by the restarted process *)
+Definition covers_kind (k : vkind) (pre post : list effect) : bool :=
+  forallb (fun a => existsb (fun b => same_slot a b && oid_eqb (v_id a) (v_id b) && (v_from a =? v_from b))
+                            (votes_in k post)) (votes_in k pre).
+Definition replay_covers (pre post : list effect) : bool :=
+  covers_kind Prevote pre post && covers_kind Precommit pre post.
+
+(* the pre-crash effects that concern heights the restarted process can still vote in *)
+Definition at_or_above (h : N) (pre : list effect) : list effect :=
+  filter (fun e => match e with
+                   | Bcast (MPrevote v) => h <=? v_h v
+                   | Bcast (MPrecommit v) => h <=? v_h v
+                   | _ => true end) pre.
